@@ -11,8 +11,8 @@ let () =
   let cases = ref 0 and bad = ref 0 and refused = ref 0 and with_ffi = ref 0 and requires = ref 0 and fuel_short = ref 0
   and nontrivial = ref 0 and crashes = ref 0 in
   let root = ref "" and graph = ref [] and imps = ref [] and exit_code = ref "" and outs = ref [] and reqs = ref []
-  and hdr = ref None and foot = ref None and idx = ref 0 in
-  let reset () = graph := []; imps := []; exit_code := ""; outs := []; reqs := []; hdr := None; foot := None in
+  and hdr = ref None and foot = ref None and idx = ref 0 and extra = ref [] in
+  let reset () = graph := []; imps := []; exit_code := ""; outs := []; reqs := []; hdr := None; foot := None; extra := [] in
   iter_lines (fun line ->
     match split_ws line with
     | ["P"; r] -> reset (); root := r
@@ -24,6 +24,7 @@ let () =
     | ["H"; h] -> hdr := Some (string_of_hex h)
     | ["T"; t] -> foot := Some (string_of_hex t)
     | "C" :: _ -> incr crashes
+    | ["M"; m] -> extra := string_of_hex m :: !extra
     | ["E"] ->
       incr cases;
       if !exit_code <> "golist-failed" then begin
@@ -50,6 +51,7 @@ let () =
            let got = List.rev !reqs in
            requires := !requires + List.length got;
            if got <> exp_reqs then say ("Requires: got [" ^ String.concat " | " got ^ "] expected [" ^ String.concat " | " exp_reqs ^ "]"));
+        List.iter say (List.rev !extra);
         if List.length g >= 4 then incr nontrivial;
         if !problems <> [] then (incr bad; Printf.printf "MISMATCH case=%d root=%s %s\n" !idx !root (String.concat " ;; " (List.rev !problems)))
       end;
